@@ -57,7 +57,18 @@ func (c *cachedRoutes) VerifKeys() []string {
 	return c.verifKeysLocked()
 }
 
-// VerifMapKeys returns the number of keys of the hash index (must equal the list length).
+// VerifRoutes returns the cached route copies, most recently used first.
+func (c *cachedRoutes) VerifRoutes() []*Route {
+	c.lock.RLock()
+	defer c.lock.RUnlock()
+	rs := make([]*Route, 0, c.list.Len())
+	for e := c.list.Front(); e != nil; e = e.Next() {
+		rs = append(rs, e.Value.(*cacheNode).Value)
+	}
+	return rs
+}
+
+// VerifMapLen returns the number of keys of the hash index (must equal the list length).
 func (c *cachedRoutes) VerifMapLen() int {
 	c.lock.RLock()
 	defer c.lock.RUnlock()
